@@ -131,6 +131,7 @@ type Case struct {
 	// UseRun: call Run instead of Execute and compare with the truth of Exp.Val.
 	UseRun bool   `json:"use_run,omitempty"`
 	TZ     string `json:"tz,omitempty"` // value of the TZ variable during the run ("-" = unset)
+	HostTZ string `json:"host_tz,omitempty"` // TZ when the process started: the zone the host's time library falls back to
 	// Hazard: the expression contains a range whose size the model could not
 	// bound once it left the specified part; such a case is not executed.
 	Hazard bool `json:"hazard,omitempty"`
@@ -318,9 +319,11 @@ func runCase(c *Case) error {
 	if j := os.Getenv("VERIF_DEBUG_JOURNAL"); j != "" {
 		_ = os.WriteFile(j, []byte(c.Script+"\n"+fmt.Sprint(c.Vars, c.Obj, c.Exp.Why)), 0o644)
 	}
-	if c.TZ != "" {
+	if _, set := os.LookupEnv("TZ"); c.TZ != "" || set {
+		// a case that says nothing about TZ runs with TZ unset (the reference
+		// interpreter then answers in UTC), whatever the process was started with
 		old, had := os.LookupEnv("TZ")
-		if c.TZ == "-" {
+		if c.TZ == "-" || c.TZ == "" {
 			os.Unsetenv("TZ")
 		} else {
 			os.Setenv("TZ", c.TZ)
@@ -460,6 +463,9 @@ func writeReplay(prop string, payload interface{}) string {
 	return path
 }
 
+// processTZ: the TZ variable as the process found it.
+var processTZ = os.Getenv("TZ")
+
 // failer is the subset of testing.T / rapid.T used to fail.
 type failer interface {
 	Fatalf(format string, args ...interface{})
@@ -476,6 +482,7 @@ func violation(t failer, prop string, payload interface{}, format string, args .
 	if c, ok := payload.(*Case); ok {
 		c.Msg = msg
 		c.Prop = prop
+		c.HostTZ = processTZ
 	}
 	path := writeReplay(prop, payload)
 	t.Fatalf("property %s violated: %s (replay %s)", prop, msg, path)
